@@ -11,6 +11,13 @@ Only combinations the library's static_asserts allow are produced:
   * HEAP columns have no row access;
   * vine updates only over Z_2; a chain matrix with vine updates offers remove_last only with a map column container;
   * has_column_and_row_swaps is only rotated for the boundary-only flavour (where the swap mixin exists without vine updates).
+Harness-side extras (last argument of C05_INSTX, see c05_body.h):
+  * X_NOPAIR (1): has_column_pairings off.  Two quick (one RU, one chain) and four thorough instantiations, appended after the
+    generated ones; they stay persistence matrices through can_retrieve_representative_cycles (no vine updates).
+  * X_RANGES (2): insert_boundary also receives std::list / std::deque / std::set boundaries.  Two instantiations per flavour in
+    the quick tier, every fifth one in the thorough tier (each range type is one more instantiation of the insertion path).
+C05_BIGP lines (a unit of their own, number 50) run the big-prime histories (few cases, one per shard) on five of the quick
+Z_p instantiations.
 Deterministic (fixed seed)."""
 import itertools
 import random
@@ -40,7 +47,10 @@ def valid(t):
     return True
 
 
-def name(t):
+X_NOPAIR, X_RANGES = 1, 2
+
+
+def name(t, xf=0):
     ct, fl, z2, idx, ra, rr, (rc, mp), dim, vine, sw = t
     s = "%s_%s_%s_%s_%s" % (FLN[fl], ct, "z2" if z2 else "zp", IDXN[idx], RAN[ra])
     if rr:
@@ -53,14 +63,36 @@ def name(t):
         s += "_vine"
     if sw:
         s += "_sw"
+    if xf & X_NOPAIR:
+        s += "_nopair"
     return s
 
 
-def inst(t):
+def inst(t, xf=0, bigp=False):
     ct, fl, z2, idx, ra, rr, (rc, mp), dim, vine, sw = t
     b = lambda x: "true" if x else "false"
-    return 'C05_INST("%s", %s, %d, %s, %d, %d, %s, %s, %s, %s, %s, %s);' % (
-        name(t), ct, fl, b(z2), idx, ra, b(rr), b(rc), b(mp), b(dim), b(vine), b(sw))
+    args = '%s, %d, %s, %d, %d, %s, %s, %s, %s, %s, %s' % (ct, fl, b(z2), idx, ra, b(rr), b(rc), b(mp), b(dim), b(vine), b(sw))
+    if bigp:
+        return 'C05_BIGP("bigp_%s", %s, %d);' % (name(t, xf), args, xf)
+    if xf:
+        return 'C05_INSTX("%s", %s, %d);' % (name(t, xf), args, xf)
+    return 'C05_INST("%s", %s);' % (name(t, xf), args)
+
+
+# quick tier: positions (in the list quick() returns) of the instantiations that also get non-vector boundary ranges, and of
+# those that get a big-prime configuration (Z_p instantiations; one boundary-only, two RU, two chain, five column families)
+QUICK_RANGES = (1, 6, 10, 15, 19, 24)
+QUICK_BIGP = (5, 9, 15, 19, 21)
+BIGP_UNIT = 50
+# has_column_pairings off: (tuple, tier)
+NOPAIR = [
+    (("SET", 1, False, 1, 1, True, (1, 0), True, False, False), "quick"),
+    (("NAIVE_VECTOR", 2, False, 0, 2, False, (1, 1), False, False, False), "quick"),
+    (("HEAP", 1, True, 0, 0, False, (1, 1), False, False, False), "thorough"),
+    (("INTRUSIVE_LIST", 1, False, 2, 2, True, (1, 0), True, False, False), "thorough"),
+    (("VECTOR", 2, True, 2, 1, True, (1, 0), True, False, False), "thorough"),
+    (("UNORDERED_SET", 2, False, 1, 0, False, (1, 1), True, False, False), "thorough"),
+]
 
 
 def quick():
@@ -140,18 +172,31 @@ def thorough(have):
 def main():
     q = quick()
     th = thorough(q)
+    for t, _ in NOPAIR:
+        assert valid(t) and t[1] != 0 and not t[8], t
+    qx = [(t, X_RANGES if i in QUICK_RANGES else 0) for i, t in enumerate(q)] + [(t, X_NOPAIR) for t, tier in NOPAIR if tier == "quick"]
+    thx = [(t, X_RANGES if i % 5 == 2 else 0) for i, t in enumerate(th)] + [(t, X_NOPAIR) for t, tier in NOPAIR if tier == "thorough"]
+    for i in QUICK_BIGP:
+        assert not q[i][2], q[i]  # Z_p
     print("// GENERATED by gen_units.py - do not edit.  %d quick instantiations (units 0..%d), %d more for the thorough tier (units 100..)." %
-          (len(q), (len(q) - 1) // PER_UNIT, len(th)))
+          (len(qx), (len(qx) - 1) // PER_UNIT, len(thx)))
     print("// C05_INST(config name, column type, flavour (0 boundary-only, 1 RU, 2 chain), Z2?, indexing (0 container, 1 position,")
     print("//          2 identifier), row access (0 none, 1 intrusive, 2 set), removable rows?, removable columns?, map column container?,")
     print("//          max-dimension access?, vine updates?, column/row swaps?)")
+    print("// C05_INSTX(..., extras): the same with the harness-side extras of c05_body.h (1 = has_column_pairings off, 2 = boundaries")
+    print("//          also given as std::list / std::deque / std::set).  C05_BIGP(\"bigp_\" name, ..., extras): the instantiation of that")
+    print("//          name run on big-prime histories (primes up to and above 2^16, few cases), unit %d." % BIGP_UNIT)
     first = True
-    for base, lst in ((0, q), (100, th)):
+    for base, lst in ((0, qx), (100, thx)):
         for i in range(0, len(lst), PER_UNIT):
             print("#%s C05_UNIT == %d" % ("if" if first else "elif", base + i // PER_UNIT))
             first = False
-            for t in lst[i:i + PER_UNIT]:
-                print(inst(t))
+            for t, xf in lst[i:i + PER_UNIT]:
+                print(inst(t, xf))
+        if base == 0:
+            print("#elif C05_UNIT == %d" % BIGP_UNIT)
+            for i in QUICK_BIGP:
+                print(inst(qx[i][0], qx[i][1] & ~X_RANGES, bigp=True))
     print("#endif")
 
 
